@@ -20,7 +20,9 @@ Mirrors, function by function:
                                                       x/metadata/keeper/msg_server.go:31-279
 * `AccMDLinks.ValidateForScopes/GetAccAddrs/GetMDAddrsForAccAddr`
                                                       x/metadata/types/address.go:952-1028
-* bank `msgServer.Send`, `SendCoins`, `MintCoins`, `BurnCoins` (forked SDK x/bank/keeper)
+* bank `msgServer.Send`, `msgServer.MultiSend` / `InputOutputCoinsProv`, `SendCoins`, `MintCoins`,
+  `BurnCoins` (forked SDK x/bank/keeper)
+* marker `msgServer.Transfer` / `Keeper.TransferCoin` (x/marker/keeper/marker.go:624) for a scope denom
 * marker `SendRestrictionFn` (withdraw / deposit parts) x/marker/keeper/send_restrictions.go:18-92
 * marker `msgServer.Withdraw` / `Keeper.WithdrawCoins`  x/marker/keeper/marker.go:169-209
 * marker lifecycle status (proposed / finalized / active / cancelled / destroyed,
@@ -34,7 +36,9 @@ Mirrors, function by function:
 
 Conventions: addresses and scope ids are symbolic strings.  The scope token of scope `i`
 (`MetadataAddress.Denom() = "nft/" + bech32`, x/metadata/types/address.go:863) is the denom
-`i` of the shared `Ledger`; the Go harness maps names to real addresses/denoms.  The empty
+`i` of the shared `Ledger`; the Go harness maps names to real addresses/denoms.  The ledger also
+carries ordinary coins (the denoms of `ordinaryDenoms`; `isScopeDenom` tells the two apart as the
+prefix `nft/scope1` does in the Go code).  The empty
 string is "no address" exactly as in the Go code (`len(addr) == 0`).
 Scopes may have `require_party_rollup` set and then may list optional parties
 (`validateAllRequiredPartiesSigned`, signers.go:64-99, with `BuildPartyDetails`,
@@ -42,7 +46,9 @@ Scopes may have `require_party_rollup` set and then may list optional parties
 `associateAuthorizationsForRoles`); an optional party may well be the value owner.
 Outside the model (assumed off in the harness app): quarantine opt-ins and sanctions (both
 would be further send restrictions; a transfer to a quarantined receiver parks the token with
-the quarantine module's funds holder until the receiver accepts), fee grants in use, expiring
+the quarantine module's funds holder until the receiver accepts — and the later `MsgAccept` is a
+further route that moves it), x/exchange orders naming a scope token (settlement moves coins with
+the market as transfer agent), fee grants in use, expiring
 authz grants, scope specifications other than the one the
 harness creates (parties involved = [OWNER] and every party has role OWNER, so
 `validateRolesPresent` always passes, the one required role is fulfilled by any party with a
@@ -57,6 +63,15 @@ namespace PvModel.Vowner
 open PvModel PvModel.Ledger
 
 abbrev ScopeId := String
+
+/-- Which denoms are scope tokens.  In the Go code a scope's denom is `"nft/" + <scope bech32>`
+(`MetadataAddress.Denom`, address.go:863) and the bank-side helpers recognise scope tokens by the
+prefix `scopeDenomPrefix = "nft/scope1"` (x/metadata/keeper/bank.go:18); every other denom is an
+ordinary coin.  Symbolically: the names in `ordinaryDenoms` stand for ordinary coin denoms — they
+are not valid scope ids — and every other name is a scope id and, as a denom, that scope's token.
+(A membership test on literals rather than a prefix test, so that `decide` can evaluate it.) -/
+def ordinaryDenoms : List Denom := ["$c", "$d", "$nhash"]
+def isScopeDenom (d : Denom) : Bool := !ordinaryDenoms.contains d
 
 /-- the four metadata messages that can move a scope token (their authz msg type URLs) -/
 inductive MsgType where
@@ -326,9 +341,11 @@ def setScopeValueOwners (s : State) (agents : List Addr) (links : List Link) (ne
       if s.blocked.contains newVO then .error .blocked
       else sendAll agents links newVO s (accAddrs links)
 
-/-- `MDBankKeeper.GetScopesForValueOwner` (bank.go:52): every scope denom the account holds -/
+/-- `MDBankKeeper.GetScopesForValueOwner` (bank.go:52): every SCOPE denom the account holds — the
+walk over the account's balances is restricted to the prefix `scopeDenomPrefix` (bank.go:52), the
+account's ordinary coins are not looked at -/
 def scopesForValueOwner (l : Ledger) (a : Addr) : List Link :=
-  ((dedup (l.map (·.denom))).filter fun d => bal l a d ≠ 0).map fun d => (some a, d)
+  ((dedup (l.map (·.denom))).filter fun d => isScopeDenom d && bal l a d ≠ 0).map fun d => (some a, d)
 
 /-! ## Authz -/
 
@@ -535,7 +552,8 @@ def validateWriteScope (s : State) (id : ScopeId) (owners : List Party) (rollup 
     (signers : List Addr) : Except Err (Auth × List Addr) :=
   -- `ValidatePartiesBasic` (at least one, unique address+role) and `ValidateOptionalParties`
   -- (types/scope.go:446-468): optional parties only with require_party_rollup
-  if signers.isEmpty || owners.isEmpty || !nodupB (partyAddrs owners) || (!rollup && owners.any (·.optional))
+  -- `Scope.ValidateBasic` (types/scope.go:48-52, `ValidateIsScopeAddress`): the scope id must be a scope metadata address
+  if signers.isEmpty || !isScopeDenom id || owners.isEmpty || !nodupB (partyAddrs owners) || (!rollup && owners.any (·.optional))
   then .error .invalid
   else
     match writeExistingVO s id (findScope s id) vo with
@@ -566,7 +584,8 @@ def deleteParties (s : State) (e : Scope) (signers : List Addr) : Except Err (Au
 
 /-- `Keeper.ValidateDeleteScope` (scope.go:525) -/
 def validateDeleteScope (s : State) (id : ScopeId) (signers : List Addr) : Except Err (Auth × List Addr) :=
-  if signers.isEmpty then .error .invalid
+  -- `MsgDeleteScopeRequest.ValidateBasic`: the id must be a scope metadata address
+  if signers.isEmpty || !isScopeDenom id then .error .invalid
   else match findScope s id with
     | none => .error .notfound
     | some e =>
@@ -603,7 +622,8 @@ def validateUpdateValueOwners (s : State) (links : List Link) (proposed : Addr) 
 
 /-- `msgServer.UpdateValueOwners` (msg_server.go:220) after `ValidateBasic` -/
 def updateValueOwners (s : State) (ids : List ScopeId) (vo : Addr) (signers : List Addr) : Except Err State :=
-  if ids.isEmpty || vo = "" || signers.isEmpty then .error .invalid
+  -- `MsgUpdateValueOwnersRequest.ValidateBasic`: every id must be a scope metadata address
+  if ids.isEmpty || vo = "" || signers.isEmpty || ids.any (!isScopeDenom ·) then .error .invalid
   else match getScopeValueOwners s.ledger ids with
     | .error e => .error e
     | .ok links =>
@@ -644,7 +664,49 @@ def markerWithdraw (s : State) (marker admin to : Addr) (ids : List ScopeId) : E
       else if !hasFunds s.ledger marker ids then .error .funds
       else .ok { s with ledger := s.ledger.move marker to (ones ids) }
 
+/-! ## Other bank routes -/
+
+/-- the input of a multi-send covers the total: as many units of each denom as it is listed -/
+def hasFundsTotal (l : Ledger) (a : Addr) (all : List Denom) : Bool :=
+  all.all fun d => decide ((all.count d : Int) ≤ bal l a d)
+
+/-- the per-output part of `InputOutputCoinsProv` (forked SDK x/bank/keeper/send.go:152): the send
+restriction is applied to every output with the one input as sender and no transfer agents; the
+input's coins were removed before -/
+def msendLoop (frm : Addr) : State → List (Addr × List ScopeId) → Except Err State
+  | s, [] => .ok s
+  | s, (to, ids) :: rest =>
+    match sendCoins s [] frm to ids with
+    | .error e => .error e
+    | .ok s1 => msendLoop frm s1 rest
+
+/-- bank `msgServer.MultiSend` (forked SDK x/bank/keeper/msg_server.go:85) with its single input
+`frm` (the message's signer) and the outputs `outs`, one unit of each listed denom per output:
+`ValidateInputOutputs`, no output may be a blocked address, the input's total is removed first
+(`subUnlockedCoins`: a denom listed in `k` outputs needs `k` units — possible for an ordinary coin,
+"insufficient funds" for a scope token), then every output passes the send restriction. -/
+def bankMultiSend (s : State) (frm : Addr) (outs : List (Addr × List ScopeId)) : Except Err State :=
+  if frm = "" || outs.isEmpty || outs.any (fun o => o.1 = "" || o.2.isEmpty || !nodupB o.2) then .error .invalid
+  else if outs.any (s.blocked.contains ·.1) then .error .blocked
+  else if !hasFundsTotal s.ledger frm (outs.flatMap (·.2)) then .error .funds
+  else msendLoop frm s outs
+
+/-- marker `msgServer.Transfer` → `Keeper.TransferCoin` (x/marker/keeper/marker.go:624) of a scope
+token: the first thing it does is `GetMarkerByDenom(amount.Denom)`, and no marker has a scope denom
+(`/` is not a marker denom character), so it is always "marker not found".  (For an ordinary denom
+the marker module's own rules apply; they are not part of this model and the op is not generated.) -/
+def markerTransfer (_s : State) (admin frm to : Addr) (id : ScopeId) : Except Err State :=
+  if admin = "" || frm = "" || to = "" || !isScopeDenom id then .error .invalid
+  else .error .notfound
+
 /-! ## Environment operations (not part of the property's messages) -/
+
+/-- ordinary coins arriving at an account (mint + send of a non-scope denom): what every account
+of a real chain has.  Scope denoms cannot be created this way: only the metadata module mints them. -/
+def fundAccount (s : State) (a : Addr) (d : Denom) (n : Nat) : Except Err State :=
+  if a = "" || n = 0 || isScopeDenom d then .error .invalid
+  else .ok { s with ledger := s.ledger.credit a [(d, (n : Int))] }
+
 
 /-- authz `SaveGrant`: replaces a grant with the same key -/
 def saveGrant (s : State) (g : Grant) : State :=
@@ -676,6 +738,9 @@ inductive Op where
   | migrate (existing proposed : Addr) (signers : List Addr)
   | send (frm to : Addr) (ids : List ScopeId)
   | mwithdraw (marker admin to : Addr) (ids : List ScopeId)
+  | msend (frm : Addr) (outs : List (Addr × List ScopeId))
+  | mtransfer (admin frm to : Addr) (id : ScopeId)
+  | fund (addr : Addr) (denom : Denom) (amount : Nat)
   | grant (granter grantee : Addr) (mt : MsgType) (count : Nat)
   | revoke (granter grantee : Addr) (mt : MsgType)
   | access (marker addr : Addr) (perms : List Access)
@@ -689,6 +754,9 @@ def exec (s : State) : Op → Except Err State
   | .migrate ex pr signers => migrateValueOwner s ex pr signers
   | .send frm to ids => bankSend s frm to ids
   | .mwithdraw marker admin to ids => markerWithdraw s marker admin to ids
+  | .msend frm outs => bankMultiSend s frm outs
+  | .mtransfer admin frm to id => markerTransfer s admin frm to id
+  | .fund a d n => fundAccount s a d n
   | .grant granter grantee mt count => .ok (saveGrant s ⟨granter, grantee, mt, count⟩)
   | .revoke granter grantee mt => deleteGrant s granter grantee mt
   | .access marker addr perms => setAccess s marker addr perms
